@@ -24,10 +24,64 @@ func drawStreamFault(c *Ctx, w *world.World) (simio.Fault, int) {
 	defer c.T.End()
 	n := len(w.Input)
 	off, class := simio.DrawFaultOffset(c.T, n, w.Recs)
+	edgeLong := false
+	if c.T.Chance("fault.buffer-edge", 1, 5) {
+		// the instant one of the buffers of the reader stack is exactly full: k*4096 bytes into a line
+		// (the line readers collect a long line buffer by buffer; the buffer starts where the line
+		// does), or k*128 / k*512 / k*4096 bytes into the stream (scanner, decoder and bufio refills)
+		var cand []int
+		in := w.Input
+		start := 0
+		for i := 0; i <= n; i++ {
+			if i == n || in[i] == '\n' {
+				for k := 1; start+k*4096 < i && len(cand) < 64; k++ {
+					cand = append(cand, start+k*4096)
+				}
+				start = i + 1
+			}
+		}
+		long := len(cand)
+		for _, b := range []int{128, 512, 4096} {
+			for k := 1; k*b < n && k <= 6; k++ {
+				cand = append(cand, k*b)
+			}
+		}
+		if len(cand) > 0 {
+			i := c.T.Intn("fault.buffer-edge.which", len(cand))
+			if long > 0 && c.T.Chance("fault.buffer-edge.in-a-long-line", 3, 4) {
+				i = c.T.Intn("fault.buffer-edge.long", long)
+				edgeLong = true
+				c.Hit("fault.at-a-multiple-of-4096-bytes-into-a-long-line")
+			}
+			off = cand[i] + c.T.Weighted("fault.buffer-edge.jitter", 4, 1, 1) % 3
+			if j := off - cand[i]; j == 2 {
+				off = cand[i] - 1
+			}
+			if off > n {
+				off = n
+			}
+			class = simio.OffAny
+			c.Count("fault.at-a-buffer-edge", 1)
+		}
+	}
 	f := simio.Fault{Kind: simio.FaultPersistent, Off: off}
+	if edgeLong && off < n && c.T.Chance("fault.buffer-edge.scenario", 2, 3) {
+		// the scenario this class exists for, drawn as a whole: the reader fails once, with nothing in
+		// hand, at the moment a long line has filled the buffer; the input goes on; the failure that
+		// stays comes anywhere behind
+		f.Kind = simio.FaultTransient
+		f.Extra = c.T.Intn("fault.extra.far", n-off+1)
+		f.ErrKind = c.T.Weighted("fault.errkind", 6, 2, 2)
+		return f, class
+	}
 	if c.T.Weighted("fault.kind", 3, 2) == 1 && off < n {
 		f.Kind = simio.FaultTransient
 		f.Extra = c.T.Intn("fault.extra", minInt(n-off, 300)+1)
+		if c.T.Chance("fault.extra.long", 1, 3) {
+			// the persistent failure may come much later - anywhere up to the end of the input (what a
+			// swallowed transient failure has torn apart is then followed by further results)
+			f.Extra = c.T.Intn("fault.extra.far", n-off+1)
+		}
 	}
 	f.WithData = c.T.Chance("fault.withData", 1, 4)
 	f.ErrKind = c.T.Weighted("fault.errkind", 6, 2, 2)
